@@ -1,6 +1,7 @@
 package engine
 
 import (
+	"os"
 	"fmt"
 	"go/token"
 	"go/types"
@@ -90,6 +91,9 @@ func (u *Unit) logHavoc(st *State, guard *Term) {
 // so it is distinct from every object that existed before and is left alone by every later frame.
 func (u *Unit) sentAllocatedDuring(st *State, guard *Term, lenBefore, allocBefore *Term) {
 	c := u.c
+	if os.Getenv("GOVC_NO_SENTFRESH") != "" {
+		return
+	}
 	k := c.BoundVar("lk", SInt)
 	sel := c.Select(u.logArr(st, "sent", SRef), k)
 	in := c.And(c.Le(lenBefore, k), c.Lt(k, u.logLen(st)))
